@@ -981,26 +981,30 @@ Proof. induction names as [|r names IH]; intros m; cbn [fold_left]; [reflexivity
 
 Lemma mgr_disconnect_rooms m sid ns rm : ns_rooms m ns = Some rm ->
   rooms (mgr_disconnect m sid ns) = rooms (fold_left (fun m r => leave_room m sid ns r) (rooms_with rm sid) m).
-Proof. intros H. unfold mgr_disconnect. rewrite H. cbv zeta. destruct (is_pending _ _ _); reflexivity. Qed.
+Proof. intros H. unfold mgr_disconnect. rewrite H. unfold disc_release. cbv zeta. destruct (is_pending _ _ _); reflexivity. Qed.
 Lemma mgr_disconnect_callbacks m sid ns rm : ns_rooms m ns = Some rm ->
   callbacks (mgr_disconnect m sid ns) = adel str_eqb (callbacks m) sid.
 Proof.
-  intros H. unfold mgr_disconnect. rewrite H. cbv zeta.
+  intros H. unfold mgr_disconnect. rewrite H. unfold disc_release. cbv zeta.
   destruct (is_pending _ _ _); cbn [callbacks]; rewrite (fold_leave_callbacks sid ns); reflexivity.
 Qed.
-Lemma mgr_disconnect_none m sid ns : ns_rooms m ns = None -> mgr_disconnect m sid ns = m.
+Lemma mgr_disconnect_none m sid ns : ns_rooms m ns = None -> mgr_disconnect m sid ns = disc_release m sid ns.
 Proof. intros H. unfold mgr_disconnect. rewrite H. reflexivity. Qed.
+Lemma disc_release_rooms_s m sid ns : rooms (disc_release m sid ns) = rooms m.
+Proof. unfold disc_release. destruct (is_pending _ sid ns); reflexivity. Qed.
+Lemma disc_release_callbacks_s m sid ns : callbacks (disc_release m sid ns) = adel str_eqb (callbacks m) sid.
+Proof. unfold disc_release. destruct (is_pending _ sid ns); reflexivity. Qed.
 
 Lemma mgr_disconnect_pending_nil m sid ns : pending m = [] -> pending (mgr_disconnect m sid ns) = [].
 Proof.
-  intros H. unfold mgr_disconnect. destruct (ns_rooms m ns); [|auto]. cbv zeta.
-  unfold is_pending. cbn [pending]. rewrite !(fold_leave_pending sid ns), H. cbn [aget pending].
-  rewrite ?(fold_leave_pending sid ns); auto.
+  intros H. unfold mgr_disconnect. destruct (ns_rooms m ns); unfold disc_release; cbv zeta;
+    unfold is_pending; cbn [pending]; rewrite ?(fold_leave_pending sid ns), H; cbn [aget pending];
+    rewrite ?(fold_leave_pending sid ns); auto.
 Qed.
 Lemma mgr_disconnect_pending_one m sid ns rm :
   ns_rooms m ns = Some rm -> pending m = [(ns, [sid])] -> pending (mgr_disconnect m sid ns) = [].
 Proof.
-  intros Hn H. unfold mgr_disconnect. rewrite Hn. cbv zeta.
+  intros Hn H. unfold mgr_disconnect. rewrite Hn. unfold disc_release. cbv zeta.
   unfold is_pending. cbn [pending]. rewrite !(fold_leave_pending sid ns), H.
   repeat (first [rewrite str_eqb_refl | progress cbn [aget existsb orb pending remove_first adel]]). reflexivity.
 Qed.
@@ -1019,8 +1023,19 @@ Lemma mgr_disconnect_spec lv fr m sid ns :
   (ns_rooms m ns <> None -> ~ In sid (map fst (callbacks m'))).
 Proof.
   intros H m'. destruct (ns_rooms m ns) as [rm|] eqn:Hns.
-  2:{ unfold m'. rewrite mgr_disconnect_none by auto. rewrite Hns.
-      split; [auto|split; [auto|split; [intros; discriminate|split; [intros; discriminate|split; [auto|intros Hc; contradiction]]]]]. }
+  2:{ unfold m'. rewrite mgr_disconnect_none by auto.
+      set (ma := mkMgr (rooms m) (pending m) (adel str_eqb (callbacks m) sid)).
+      assert (Hma : MInv lv fr ma).
+      { destruct H as [H1 H2 H3 H4]. split; auto.
+        - cbn [callbacks ma]. apply keys_ok_adel; auto.
+        - intros k Hk. cbn [callbacks ma] in Hk. apply In_adel_keys in Hk. apply H4; auto. }
+      assert (Hnr : forall n0, ns_rooms (disc_release m sid ns) n0 = ns_rooms m n0).
+      { intro n0. unfold ns_rooms. rewrite disc_release_rooms_s. reflexivity. }
+      split; [apply (MInv_ext lv fr ma); [rewrite disc_release_rooms_s; reflexivity|rewrite disc_release_callbacks_s; reflexivity|exact Hma]|].
+      split; [intros ns0 _; apply Hnr|].
+      split; [intros rm' r s e Hn; rewrite Hnr, Hns in Hn; discriminate|].
+      split; [intros; discriminate|].
+      split; [intros k; rewrite disc_release_callbacks_s; apply In_adel_keys|intros Hc; contradiction]. }
   destruct (mi_ns _ _ _ H _ _ Hns) as [Hnsne Hrm].
   set (rmf := rm_leave_all rm sid (rooms_with rm sid)).
   destruct (rm_purge_spec rm sid (ri_wf _ _ _ Hrm)) as (A & B & C). fold rmf in A, B, C.
